@@ -1,23 +1,110 @@
 import SfxModel.TextSpec
 import SfxModel.Display
+import SfxProofs.FmtTop
+import SfxProofs.FmtTopRoundTrip
+import SfxProps.C08Holds
 /-
   C09 — Formatting is faithful: printed digits are the rounded value and round-trip.
 
-  STATUS: the executable model `Display.fmt` (function by function after `display.rs`) is tied to the code by the correspondence
-  check (0 disagreements on 1.8 M requests, all 507 layouts, 2112 format-spec combinations, both profiles); every implementation
-  answer is judged by the exact-rational verdict `TextSpec.fmtVerdict` (shown digits = round-half-even of the exact value at the
-  requested / shown precision; radix 2^k exact; total length = max(width, core); padding only of fill / zeros) and the default
-  output is parsed back by the implementation (`rt` requests).  Theorems over the model (totality and "flags only pad", radix-2^k
-  digits exact, decimal digits correctly rounded) are in progress (see MANIFEST level text).
+  `C09_statement` is the property at full strength for the model `Display.fmt` (function by function after `display.rs`; the driver
+  formats the bits `x` of layout `L` as `fmtBits L spec x`), for every valid layout, every value, every one of the six formatting traits
+  and every format specification (any sign, width, fill, alignment, `+`, `#`, `0`; any precision `< 2^16`, the property asks 0..=200):
+
+    (1) no panic and no debug-only check, and the output is EXACTLY `assemble spec neg (render digits, ez)`: sign, prefix (`#`), padding
+        (width / fill / alignment / `0`) around a digit string `(ip, fp, ez) = digitsOf kind prec |x| n f` that does not depend on the
+        sign or on any flag — "sign, width, fill, alignment, '+', '#' and zero-padding flags affect only padding and prefixes";
+    (2) the digits are canonical and in range of the radix;
+    (3) value: without a precision, Binary/Octal/LowerHex/UpperHex digits denote the value EXACTLY and Display/Debug digits are the
+        half-even rounding of the exact value at the number of digits shown, strictly within half a unit of the last place of the TYPE
+        (so they identify the value); with precision `p`, the digits (with `ez` zeros appended) are the half-even rounding of the exact
+        value at `p` digits in every radix;
+    (4) `round_trip`: the default Display output parses back — through the modelled `FromStr` (C08) — to exactly the same bits.
+
+  Proof: SfxProofs/FmtStruct.lean (totality, factorisation through `assemble`), FmtRadix*.lean (power-of-two radices), FmtDec*.lean
+  (decimal digits: `mul10` incl. the two-limb u128 version, the digit loop invariant, auto-precision stop condition, rounding and
+  trimming), FmtTop*.lean (assembly, `literal` of a rendered string).
 -/
 namespace Sfx.C09
-open Sfx.TextSpec
+open Sfx.TextSpec Sfx.FmtTopPf
 
-/-- the verdict accepts a correct string and rejects a wrong digit (sanity of the specification side) -/
-example : fmtVerdict { kind := "d", prec := some 3 } 7 false 9 [48, 46, 48, 55] = none ∧        -- 9/128 = 0.0703125 → "0.07" (0.070 with zeros trimmed)
-    fmtVerdict { kind := "d", prec := some 8 } 7 false 9 [48, 46, 48, 55, 48, 48, 48, 48, 48, 48] ≠ none := by   -- "0.07000000" is not the rounding at 8 digits
-  decide +kernel
+/-- how a value of layout `L` reaches the formatter (`display.rs`: `(is_neg, abs) = if x < 0 { (true, x.wrapping_neg() as unsigned) } …`) -/
+def fmtBits (L : Layout) (spec : FmtSpec) (x : Int) : Option (Outcome (List Nat)) :=
+  Display.fmt spec (decide (x < 0)) x.natAbs L.n L.f
 
-theorem placeholder : True := trivial
+/-- FULL statement of C09, clauses (1)–(3) -/
+def C09_statement : Prop :=
+  ∀ L : Layout, L.valid → ∀ x : Int, inRange L x → ∀ spec : FmtSpec, FmtPf.KindOk spec.kind → FmtPf.PrecOk spec.prec →
+    ∀ ip fp ez, digitsOf spec.kind spec.prec x.natAbs L.n L.f = (ip, fp, ez) →
+      fmtBits L spec x = some (.ok (FmtPf.assemble spec (decide (x < 0))
+          (render (spec.kind == "X") ip fp (!fp.isEmpty || decide (0 < ez)), ez)) false) ∧
+      Canon ip ∧ (∀ d, d ∈ ip ++ fp → d < spec.radix) ∧ fp.getLast? ≠ some 0 ∧
+      (match spec.prec with
+       | none =>
+         ez = 0 ∧ valI spec.radix (ip ++ fp) = rneDiv (x.natAbs * spec.radix ^ fp.length) (2 ^ L.f) ∧
+         (spec.radix ≠ 10 → valI spec.radix (ip ++ fp) * 2 ^ L.f = x.natAbs * spec.radix ^ fp.length) ∧
+         (spec.radix = 10 → rneDiv (valI 10 (ip ++ fp) * 2 ^ L.f) (10 ^ fp.length) = x.natAbs ∧
+            2 * (valI 10 (ip ++ fp) * 2 ^ L.f) < 2 * (x.natAbs * 10 ^ fp.length) + 10 ^ fp.length ∧
+            2 * (x.natAbs * 10 ^ fp.length) < 2 * (valI 10 (ip ++ fp) * 2 ^ L.f) + 10 ^ fp.length)
+       | some p =>
+         fp.length + ez = p ∧ valI spec.radix (ip ++ fp) * spec.radix ^ ez = rneDiv (x.natAbs * spec.radix ^ p) (2 ^ L.f))
+
+/-- a bit pattern's magnitude fits the unsigned word -/
+theorem natAbs_lt (L : Layout) (hL : L.valid) (x : Int) (hx : inRange L x) : x.natAbs < 2 ^ L.n := by
+  have hn : 0 < L.n := by rcases hL.1 with h | h | h | h | h <;> omega
+  have hP : (2 : Int) ^ L.n = 2 * 2 ^ (L.n - 1) := by
+    rw [show L.n = (L.n - 1) + 1 from by omega, Int.pow_succ, Int.mul_comm]; simp
+  have hpos : (0 : Int) < 2 ^ (L.n - 1) := Int.pow_pos (by decide)
+  have : ((x.natAbs : Nat) : Int) < 2 ^ L.n := by
+    unfold inRange inI at hx
+    cases hs : L.signed
+    · simp only [hs, minI, maxI] at hx; omega
+    · simp only [hs, minI, maxI] at hx; omega
+  exact_mod_cast this
+
+theorem widthOk (L : Layout) (hL : L.valid) : FmtPf.WidthOk L.n := hL.1
+
+/-- C09, clauses (1)–(3) -/
+theorem holds : C09_statement := by
+  intro L hL x hx spec hk hp ip fp ez hd
+  exact fmt_correct spec (decide (x < 0)) x.natAbs L.n L.f (widthOk L hL) hL.2 (natAbs_lt L hL x hx) hk hp ip fp ez hd
+
+/-- clause (1) read as a relation between two format specs: same kind and precision ⇒ same digit body, for any signs and flags -/
+theorem flags_only_pad (L : Layout) (hL : L.valid) (x : Int) (hx : inRange L x) (spec₁ spec₂ : FmtSpec) (neg₁ neg₂ : Bool)
+    (hk : FmtPf.KindOk spec₁.kind) (hp : FmtPf.PrecOk spec₁.prec) (hkind : spec₂.kind = spec₁.kind) (hprec : spec₂.prec = spec₁.prec) :
+    ∃ b, Display.fmt spec₁ neg₁ x.natAbs L.n L.f = some (.ok (FmtPf.assemble spec₁ neg₁ b) false) ∧
+         Display.fmt spec₂ neg₂ x.natAbs L.n L.f = some (.ok (FmtPf.assemble spec₂ neg₂ b) false) :=
+  FmtPf.fmt_flags_only_pad spec₁ spec₂ neg₁ neg₂ x.natAbs L.n L.f (widthOk L hL) hL.2 (natAbs_lt L hL x hx) hk hp hkind hprec
+
+/-- Debug prints what Display prints -/
+theorem debug_eq_display (L : Layout) (spec : FmtSpec) (x : Int) :
+    fmtBits L { spec with kind := "D" } x = fmtBits L { spec with kind := "d" } x :=
+  FmtPf.debug_eq_display spec (decide (x < 0)) x.natAbs L.n L.f
+
+/-- clause (4): the default output parses back, through the modelled `from_str`, to exactly the same bits (no overflow, no error) -/
+theorem round_trip (L : Layout) (hL : L.valid) (x : Int) (hx : inRange L x) :
+    ∃ out, fmtBits L { kind := "d" } x = some (.ok out false) ∧
+      FromStr.parse L .plain 10 out = some (.ok (.val x) false) ∧
+      FromStr.parse L .overflowing 10 out = some (.ok (.valFlag x false) false) := by
+  obtain ⟨out, h1, h2⟩ := default_output_parses_back_int x L.n L.f (widthOk L hL) hL.2 (natAbs_lt L hL x hx)
+  have hn : 0 < L.n := by rcases hL.1 with h | h | h | h | h <;> omega
+  refine ⟨out, h1, ?_, ?_⟩
+  · obtain ⟨a, ha, hs⟩ := C08.forms_hold L hL 10 (Or.inr (Or.inr (Or.inl rfl))) out .plain
+    rw [h2] at hs
+    rw [ha, hs]
+    simp [C08.formSpec, hx]
+  · obtain ⟨a, ha, hs⟩ := C08.forms_hold L hL 10 (Or.inr (Or.inr (Or.inl rfl))) out .overflowing
+    rw [h2] at hs
+    rw [ha, hs]
+    simp only [C08.formSpec, hx, decide_true, Bool.not_true]
+    rw [show L.wrap x = x from wrapI_of_in hn hx]
+
+/-- non-vacuity / sanity: 9/128 in U1F7 prints "0.07" (default), "0.070" at precision 3, "0.0001001" in binary; -1.5 in I4F4 as
+`{:+08.2}` prints "-0001.50" -/
+example :
+    fmtBits ⟨false, 8, 7⟩ { kind := "d" } 9 = some (.ok [48, 46, 48, 55] false) ∧
+    fmtBits ⟨false, 8, 7⟩ { kind := "d", prec := some 3 } 9 = some (.ok [48, 46, 48, 55, 48] false) ∧
+    fmtBits ⟨false, 8, 7⟩ { kind := "b" } 9 = some (.ok [48, 46, 48, 48, 48, 49, 48, 48, 49] false) ∧
+    fmtBits ⟨true, 8, 4⟩ { kind := "d", plus := true, zero := true, width := some 8, prec := some 2 } (-24)
+      = some (.ok [45, 48, 48, 48, 49, 46, 53, 48] false) := by decide +kernel
 
 end Sfx.C09
